@@ -48,12 +48,18 @@ def plan(tier, seed):
     n = 1200 if tier == 'quick' else 8000
     out += [('maze', i) for i in range(n)]
     out += [('snap', i) for i in range(n // 2)]
+    # large open grids with a wall and two gaps: two competing routes whose costs differ by little (admissibility of the heuristic)
+    out += [('twogap', i) for i in range(160 if tier == 'quick' else 1500)]
     return out
 
 
 def shard_filter(descs, shard, nshards, mode):
     if mode == 'I':
         descs = [d for d in descs if d[0] in ('maze', 'snap') or (d[0] == 'exh' and d[1].startswith(('2,2', '2,3')))]
+    else:
+        pass
+    if mode == 'I':
+        descs = [d for d in descs if d[0] != 'twogap']
     return [d for i, d in enumerate(descs) if i % nshards == shard]
 
 
@@ -286,6 +292,33 @@ def check(rec, kind, idx, rng, tier):
                                    floor_cells=[_floor_cell(ps, ys, xs, geom), _floor_cell(pg, ys, xs, geom)])
                         judge(rec, grid, ok, conn, out, s, g, False, False, pay, frac=geom['cx'] != 1.0)
         return
+    if kind == 'twogap':
+        H, W = int(rng.integers(15, 36)), int(rng.integers(30, 61))
+        grid = np.zeros((H, W))
+        nwalls = int(rng.integers(1, 3))
+        for wi in range(nwalls):
+            col = int(rng.integers(5, W - 5))
+            grid[:, col] = 1
+            for g_ in rng.choice(np.arange(H), size=2, replace=False):
+                grid[int(g_), col] = 0
+        if rng.random() < 0.5:
+            grid[rng.random((H, W)) < 0.03] = 1
+        ok = grid == 0
+        geom = dict(cx=1.0, cy=1.0, x0=0.0, y0=0.0, ydesc=True, xdesc=False)
+        surf, ys, xs = _surface(grid, geom)
+        cells_l = [(r_, 0) for r_ in range(H) if ok[r_, 0]]; cells_r = [(r_, W - 1) for r_ in range(H) if ok[r_, W - 1]]
+        if not cells_l or not cells_r:
+            rec.rej('twogap.no_free_border_cell'); return
+        for q in range(3):
+            s = cells_l[int(rng.integers(0, len(cells_l)))]; g = cells_r[int(rng.integers(0, len(cells_r)))]
+            conn = 8 if rng.random() < 0.8 else 4
+            rec.evaluation()
+            ps = (ys[s[0]], xs[s[1]]); pg = (ys[g[0]], xs[g[1]])
+            out = _search(rec, surf, ps, pg, barriers=[1], connectivity=conn)
+            pay = dict(grid=grid, barriers=[1], start_cell=s, goal_cell=g, start=ps, goal=pg, connectivity=conn, geom=geom, style='twogap')
+            judge(rec, grid, ok, conn, out, s, g, False, False, pay)
+            rec.cls('maze.twogap')
+        return
     # ---- random mazes / snapping ---------------------------------------
     H, W = int(rng.integers(2, 11)), int(rng.integers(2, 11))
     one_d = rng.random() < 0.08
@@ -313,6 +346,9 @@ def check(rec, kind, idx, rng, tier):
         barrier_vals = [1, 5, 7]
         grid[~m] = rng.choice([0, 2, 3], size=grid.shape)[~m]
     dt = str(rng.choice(['float64', 'float64', 'float32', 'int32', 'int64']))
+    if dt in ('float64', 'int64', 'int32') and rng.random() < 0.25:
+        # class codes of large magnitude that differ by one: a barrier is a value, not a neighbourhood of values
+        grid = grid + 200000; barrier_vals = [int(b) + 200000 for b in barrier_vals]; rec.cls('maze.large_codes')
     g2 = grid.astype(dt)
     if g2.dtype.kind == 'f' and rng.random() < 0.4:
         m = rng.random((H, W)) < 0.1
